@@ -103,7 +103,7 @@ def arm_failpoints(pid, repo):
     try:
         subprocess.run(["rsync", "-a", "--delete", "--exclude", ".git", os.path.realpath(repo) + "/", scratch + "/"], check=True)
         armed, dirs = [], set()
-        for pt in spec["points"]:
+        for pt in spec.get("points", []):
             path = os.path.join(scratch, pt["file"])
             src = open(path).read()
             if src.count(pt["before"] + "\n") != 1:
@@ -112,11 +112,37 @@ def arm_failpoints(pid, repo):
             open(path, "w").write(src)
             armed.append(pt["name"])
             dirs.add(os.path.dirname(path))
+        # line points: one failpoint before EVERY source line of the listed files that matches a pattern
+        # (e.g. every stand-alone mutex acquisition of a package). Anchored by pattern, not by text, so
+        # they also land in code a change under test has added.
+        import glob as _glob
+        extra_terms = []
+        for lp in spec.get("line_points", []):
+            k = 0
+            for path in sorted(_glob.glob(os.path.join(scratch, lp["glob"]))):
+                if path.endswith("_test.go") or path.endswith(".pb.go"):
+                    continue
+                rx = re.compile(lp["regex"])
+                out_lines, hit = [], False
+                for line in open(path).read().split("\n"):
+                    if rx.match(line):
+                        name = "%s%d" % (lp["prefix"], k)
+                        k += 1
+                        indent = line[:len(line) - len(line.lstrip())]
+                        out_lines.append("%s// gofail: var %s struct{}" % (indent, name))
+                        out_lines.append("")
+                        armed.append(name)
+                        extra_terms.append("%s=%s" % (name, lp["term"]))
+                        hit = True
+                    out_lines.append(line)
+                if hit:
+                    open(path, "w").write("\n".join(out_lines))
+                    dirs.add(os.path.dirname(path))
         if not armed:
             raise RuntimeError("no anchor found")
         for d in sorted(dirs):
             subprocess.run([gofail, "enable", d], check=True, stdout=subprocess.PIPE, stderr=subprocess.STDOUT)
-        terms = ";".join(t for t in spec["terms"].split(";") if t.split("=")[0] in armed)
+        terms = ";".join([t for t in spec.get("terms", "").split(";") if t and t.split("=")[0] in armed] + extra_terms)
         return scratch, armed, terms, lock
     except Exception:
         shutil.rmtree(scratch, ignore_errors=True)
